@@ -1,7 +1,7 @@
 (* C01 Longest match with first-rule priority, recovered by backtracking. *)
 From LexVerif Require Import Base CharClass RangeMap Regex Spec SpecExec LexSpec Nfa Dfa NfaToDfa NfaSem Codegen
      Runtime ScanIface RulesetSem Driver SpecDef ClassAlgProofs RuntimeProofs RuntimeLemmas ScanOkProofs
-     RulesetSemProofs LexSpecProofs LexSpecFacts EndToEnd EndToEndModel Instance Harness.
+     RulesetSemProofs LexSpecProofs LexSpecFacts SpecInvariants EndToEnd EndToEndModel Instance Harness.
 From LexVerif.Gen Require Import GenTables GenConsts.
 From LexVerif Require Import BacktrackProofs.
 
